@@ -92,19 +92,7 @@ Proof.
   - rewrite (Hb O a ltac:(lia) eq_refl). apply (IH i Hn Ht Hx). intros j y Hj Hy. apply (Hb (S j) y); [lia|exact Hy].
 Qed.
 
-Lemma find_insert_node sch (P : dnode -> bool) f n : P n = false -> find P (insert_node sch f n) = find P f.
-Proof.
-  intro Hn. induction f as [|b r IH]; cbn [insert_node find]; [rewrite Hn; reflexivity|].
-  destruct (goes_before sch n b); cbn [find]; [rewrite Hn; reflexivity|]. rewrite IH. reflexivity.
-Qed.
 
-Lemma filter_insert_node_len sch (P : dnode -> bool) f n :
-  length (filter P (insert_node sch f n)) = length (filter P (n :: f)).
-Proof.
-  induction f as [|b r IH]; cbn [insert_node]; [reflexivity|].
-  destruct (goes_before sch n b); [reflexivity|].
-  cbn [filter] in *. destruct (P b), (P n); cbn [length] in *; lia.
-Qed.
 
 Lemma filter_replace_nth_len {A} (P : A -> bool) i l t x :
   nth_error l i = Some t -> P x = P t -> length (filter P (replace_nth i l x)) = length (filter P l).
@@ -120,35 +108,11 @@ Qed.
 Lemma match_eq_sid sch src x : match_eq sch src x = true -> d_sid x = d_sid src.
 Proof. unfold match_eq. intro H. apply andb_true_iff in H. destruct H as [H _]. apply N.eqb_eq in H. exact H. Qed.
 
-Definition iid_sid (i : iid) : sid := match i with IdNode s | IdKeys s _ | IdVal s _ => s end.
 
-Lemma inst_id_sid sch n i : inst_id sch n = Some i -> iid_sid i = d_sid n.
-Proof.
-  unfold inst_id. destruct (dup_inst sch (d_sid n)); [discriminate|].
-  destruct (kind_of sch (d_sid n)); intro H; inversion H; reflexivity.
-Qed.
 
-Lemma has_id_sid sch i x : has_id sch i x = true -> d_sid x = iid_sid i.
-Proof.
-  unfold has_id. destruct (inst_id sch x) as [j|] eqn:E; [|discriminate]. intro H.
-  apply iid_eqb_eq in H. subst j. symmetry. apply (inst_id_sid _ _ _ E).
-Qed.
 
-Lemma inst_id_some sch n : dup_inst sch (d_sid n) = false -> exists i, inst_id sch n = Some i.
-Proof.
-  unfold inst_id. intros ->. destruct (kind_of sch (d_sid n)); eexists; reflexivity.
-Qed.
 
-Lemma inst_id_none sch n : dup_inst sch (d_sid n) = true <-> inst_id sch n = None.
-Proof.
-  unfold inst_id. destruct (dup_inst sch (d_sid n)); split; intro H; try reflexivity; try discriminate.
-  destruct (kind_of sch (d_sid n)); discriminate.
-Qed.
 
-Lemma dup_inst_multi sch s : dup_inst sch s = true -> multi sch s = true.
-Proof.
-  unfold dup_inst, multi, kind_of. destruct (si_kind (sget sch s)); try discriminate; reflexivity.
-Qed.
 
 (* for a node that has an identity, matching is having the same identity *)
 Lemma match_eq_has_id sch src i :
@@ -167,15 +131,7 @@ Proof.
     apply has_id_sid in E. rewrite (inst_id_sid _ _ _ Hi) in E. apply N.eqb_neq in Es. congruence.
 Qed.
 
-Lemma has_id_self sch n i : inst_id sch n = Some i -> has_id sch i n = true.
-Proof. unfold has_id. intros ->. apply iid_eqb_refl. Qed.
 
-Lemma has_id_inst sch i x : has_id sch i x = true <-> inst_id sch x = Some i.
-Proof.
-  unfold has_id. destruct (inst_id sch x) as [j|]; split; intro H; try discriminate.
-  - apply iid_eqb_eq in H. congruence.
-  - inversion H. apply iid_eqb_refl.
-Qed.
 
 (* k-th match *)
 Lemma match_idx_some sch src trg : forall k j i,
@@ -429,17 +385,9 @@ Lemma MStep_unfold sch o src trg trg' :
       MFoldK sch (MStep sch o) (d_ch src) (d_ch t) (d_ch t2)).
 Proof. destruct src as [s v d m ch]. cbn [MStep d_sid d_ch]. reflexivity. Qed.
 
+
+
 (* --- facts that follow from the shape of a step --- *)
-Definition parents_ok (sch : schema) (src : dnode) : Prop :=
-  forall x, In x (d_ch src) -> si_parent (sget sch (d_sid x)) = Some (d_sid src).
-
-Lemma CanonN_parents_ok sch p src : CanonN sch p src -> parents_ok sch src.
-Proof.
-  destruct src as [s v d m ch]. rewrite CanonN_unfold. intros [_ [_ HF]] x Hx. cbn [d_ch d_sid] in *.
-  rewrite Forall_forall in HF. specialize (HF x Hx). destruct x as [s' v' d' m' ch']. rewrite CanonN_unfold in HF.
-  destruct HF as [[i [Hl [Hp _]]] _]. cbn [d_sid]. unfold sget. rewrite Hl. exact Hp.
-Qed.
-
 Lemma MStep_find_sid sch o x a m k :
   MStep sch o x a m -> d_sid x <> k -> find_sid m k = find_sid a k.
 Proof.
@@ -654,11 +602,6 @@ Proof.
   repeat split; try assumption. rewrite Hk; [exact H3|]. rewrite <- H1. exact H2.
 Qed.
 
-Lemma CanonN_term_nil sch p n : CanonN sch p n -> is_term sch (d_sid n) = true -> d_ch n = [].
-Proof.
-  destruct n as [s v d m ch]. rewrite CanonN_unfold. intros [[i [Hl [_ [_ Ht]]]] _] H. cbn [d_sid d_ch] in *.
-  apply Ht. unfold is_term, kind_of, sget in H. rewrite Hl in H. exact H.
-Qed.
 
 Lemma MFoldK_nil_src sch step a b : MFoldK sch step [] a b -> b = a.
 Proof. cbn. congruence. Qed.
@@ -743,93 +686,21 @@ Proof.
   intros HT HS. apply (MFold_canon sch o None S T); [exact HT|apply HS|apply merge_sound, HS].
 Qed.
 
+
+
+
+
+
+
+
+
+
+
+
+
 (* ------------------------------------------------------------------------------------------- *)
 (* F. identities stay unique                                                                     *)
 (* ------------------------------------------------------------------------------------------- *)
-Definition UniqL (sch : schema) (f : forest) : Prop :=
-  forall j, (length (filter (has_id sch j) f) <= 1)%nat.
-
-Fixpoint UniqN (sch : schema) (n : dnode) {struct n} : Prop :=
-  match n with
-  | DN _ _ _ _ ch =>
-      UniqL sch ch /\
-      (fix all (l : list dnode) : Prop := match l with [] => True | x :: l' => UniqN sch x /\ all l' end) ch
-  end.
-
-(* no two siblings with one identity, at every level (what validation guarantees) *)
-Definition UniqIds (sch : schema) (f : forest) : Prop := UniqL sch f /\ Forall (UniqN sch) f.
-
-Lemma UniqN_unfold sch n : UniqN sch n <-> UniqIds sch (d_ch n).
-Proof.
-  destruct n as [s v d m ch]. cbn [UniqN d_ch]. unfold UniqIds.
-  assert (HF : forall l, (fix all (l : list dnode) : Prop :=
-                            match l with [] => True | x :: l' => UniqN sch x /\ all l' end) l <-> Forall (UniqN sch) l).
-  { induction l as [|x l IH]; [split; [constructor|trivial]|]. split.
-    - intros [H1 H2]. constructor; [assumption|apply IH; assumption].
-    - intro H. inversion H; subst. split; [assumption|apply IH; assumption]. }
-  rewrite HF. reflexivity.
-Qed.
-
-Lemma same_inst_has_id sch n j y : inst_id sch n = Some j -> same_inst sch n y = has_id sch j y.
-Proof. unfold same_inst. intros ->. reflexivity. Qed.
-
-Lemma uniq_idsb_list_spec sch f : uniq_idsb_list sch f = true -> UniqL sch f.
-Proof.
-  induction f as [|n r IH]; intros H j; cbn [uniq_idsb_list filter length] in *; [lia|].
-  apply andb_true_iff in H. destruct H as [H1 H2]. apply negb_true_iff in H1. specialize (IH H2 j).
-  destruct (has_id sch j n) eqn:E; [|exact IH]. cbn [length].
-  apply has_id_inst in E.
-  assert (Hr : filter (has_id sch j) r = []).
-  { destruct (filter (has_id sch j) r) as [|y l] eqn:Ef; [reflexivity|].
-    assert (Hy : In y (filter (has_id sch j) r)) by (rewrite Ef; left; reflexivity).
-    apply filter_In in Hy. destruct Hy as [Hy1 Hy2].
-    assert (existsb (same_inst sch n) r = true); [|congruence].
-    apply existsb_exists. exists y. split; [exact Hy1|]. rewrite (same_inst_has_id sch n j y E). exact Hy2. }
-  rewrite Hr. cbn. lia.
-Qed.
-
-Lemma uniq_nodeb_spec sch n : uniq_nodeb sch n = true -> UniqN sch n.
-Proof.
-  induction n as [s v d m ch IH] using dnode_ind'. cbn [uniq_nodeb]. intro H.
-  apply andb_true_iff in H. destruct H as [H1 H2]. apply UniqN_unfold. cbn [d_ch]. split.
-  - apply uniq_idsb_list_spec, H1.
-  - rewrite forallb_forall in H2. rewrite Forall_forall in *. intros x Hx. apply (IH x Hx), H2, Hx.
-Qed.
-
-Theorem uniq_idsb_spec sch f : uniq_idsb sch f = true -> UniqIds sch f.
-Proof.
-  unfold uniq_idsb. intro H. apply andb_true_iff in H. destruct H as [H1 H2]. split.
-  - apply uniq_idsb_list_spec, H1.
-  - rewrite forallb_forall in H2. apply Forall_forall. intros x Hx. apply uniq_nodeb_spec, H2, Hx.
-Qed.
-
-(* with unique identities the node found by identity is THE node with it *)
-Lemma uniq_find sch f x j : UniqL sch f -> In x f -> has_id sch j x = true -> find_inst sch f j = Some x.
-Proof.
-  unfold find_inst. induction f as [|a r IH]; intros HU Hin Hx; [contradiction|]. cbn [find].
-  destruct (has_id sch j a) eqn:Ea.
-  - destruct Hin as [->|Hin]; [reflexivity|]. exfalso.
-    specialize (HU j). cbn [filter] in HU. rewrite Ea in HU. cbn [length] in HU.
-    assert (In x (filter (has_id sch j) r)) by (apply filter_In; split; assumption).
-    destruct (filter (has_id sch j) r); [contradiction|cbn in HU; lia].
-  - destruct Hin as [->|Hin]; [congruence|]. apply IH; [|exact Hin|exact Hx].
-    intro j'. specialize (HU j'). cbn [filter] in HU. destruct (has_id sch j' a); cbn [length] in HU; lia.
-Qed.
-
-Lemma find_inst_some sch f j x : find_inst sch f j = Some x -> In x f /\ has_id sch j x = true.
-Proof. unfold find_inst. intro H. apply find_some in H. exact H. Qed.
-
-Lemma UniqL_tail sch a f : UniqL sch (a :: f) -> UniqL sch f.
-Proof. intros H j. specialize (H j). cbn [filter] in H. destruct (has_id sch j a); cbn [length] in H; lia. Qed.
-
-Lemma UniqL_head_other sch a f j : UniqL sch (a :: f) -> has_id sch j a = true -> forall y, In y f -> has_id sch j y = false.
-Proof.
-  intros H Ha y Hy. destruct (has_id sch j y) eqn:E; [|reflexivity]. exfalso.
-  specialize (H j). cbn [filter] in H. rewrite Ha in H. cbn [length] in H.
-  assert (In y (filter (has_id sch j) f)) by (apply filter_In; split; assumption).
-  destruct (filter (has_id sch j) f); [contradiction|cbn in H; lia].
-Qed.
-
 (* a step touches only the instance of src *)
 Lemma match_other_id sch src t j :
   match_eq sch src t = true -> inst_id sch src <> Some j -> has_id sch j t = false.
@@ -907,25 +778,11 @@ Proof.
   intros HS HT HU. apply (MFold_uniq sch o None S T); [apply HS|apply HU|exact HT|apply merge_sound, HS].
 Qed.
 
+
+
 (* ------------------------------------------------------------------------------------------- *)
 (* G. the source content is in the result, the rest of the target is kept                        *)
 (* ------------------------------------------------------------------------------------------- *)
-Lemma lookup_path_cons sch f j q :
-  lookup_path sch f (j :: q) =
-  match find_inst sch f j with
-  | Some x => match q with [] => Some x | _ => lookup_path sch (d_ch x) q end
-  | None => None
-  end.
-Proof. destruct q; cbn [lookup_path]; destruct (find_inst sch f j); reflexivity. Qed.
-
-Lemma find_inst_insert_new sch f n j :
-  (forall y, In y f -> has_id sch j y = false) -> has_id sch j n = true -> find_inst sch (insert_node sch f n) j = Some n.
-Proof.
-  unfold find_inst. induction f as [|b r IH]; intros Hf Hn; cbn [insert_node find]; [rewrite Hn; reflexivity|].
-  destruct (goes_before sch n b); cbn [find]; [rewrite Hn; reflexivity|].
-  rewrite (Hf b (or_introl eq_refl)). apply IH; [|exact Hn]. intros y Hy. apply Hf. right. exact Hy.
-Qed.
-
 Lemma find_replace_uniq sch a i t t2 j :
   UniqL sch a -> nth_error a i = Some t -> has_id sch j t = true -> inst_id sch t2 = inst_id sch t ->
   find_inst sch (replace_nth i a t2) j = Some t2.
@@ -936,46 +793,11 @@ Proof.
   - unfold has_id in *. rewrite Hid. exact Ht.
 Qed.
 
-Lemma multi_false_dup sch k : multi sch k = false -> dup_inst sch k = false.
-Proof. intro H. destruct (dup_inst sch k) eqn:E; [|reflexivity]. apply dup_inst_multi in E. congruence. Qed.
 
-Lemma has_id_node sch k c : multi sch k = false -> has_id sch (IdNode k) c = (d_sid c =? k).
-Proof.
-  intro Hm. unfold has_id. destruct (d_sid c =? k) eqn:E.
-  - apply N.eqb_eq in E. unfold inst_id. rewrite E, (multi_false_dup sch k Hm).
-    unfold multi in Hm. destruct (kind_of sch k); try discriminate; cbn [iid_eqb]; apply N.eqb_refl.
-  - destruct (inst_id sch c) as [j|] eqn:Ej; [|reflexivity].
-    pose proof (inst_id_sid sch c j Ej) as Hs. apply N.eqb_neq in E.
-    destruct j; cbn [iid_eqb iid_sid] in *; try reflexivity. apply N.eqb_neq. congruence.
-Qed.
 
-Lemma lookup_In (sch : schema) s i : lookup sch s = Some i -> In (s, i) sch.
-Proof.
-  induction sch as [|[k e] r IH]; cbn [lookup]; [discriminate|].
-  destruct (k =? s) eqn:E; intro H; [apply N.eqb_eq in E; inversion H; subst; left; reflexivity|right; apply IH, H].
-Qed.
 
-Lemma schema_ok_entry sch s i :
-  schema_okb sch = true -> lookup sch s = Some i ->
-  (match si_kind i with KList => true | _ => match si_keys i with [] => true | _ => false end end = true) /\
-  (forall k, In k (si_keys i) -> kind_of sch k = KLeaf).
-Proof.
-  unfold schema_okb. intros H Hl. rewrite forallb_forall in H. specialize (H _ (lookup_In sch s i Hl)). cbn in H.
-  apply andb_true_iff in H. destruct H as [H _]. apply andb_true_iff in H. destruct H as [H _].
-  apply andb_true_iff in H. destruct H as [H1 H2]. split; [exact H1|].
-  intros k Hk. rewrite forallb_forall in H2. specialize (H2 k Hk).
-  unfold kind_of, sget. destruct (lookup sch k) as [ki|]; [|discriminate].
-  apply andb_true_iff in H2. destruct H2 as [_ H2]. destruct (si_kind ki); try discriminate. reflexivity.
-Qed.
 
-Lemma find_ext_eq {A} (P Q : A -> bool) l : (forall x, P x = Q x) -> find P l = find Q l.
-Proof. intro H. induction l as [|a l IH]; cbn [find]; [reflexivity|]. rewrite H, IH. reflexivity. Qed.
 
-Lemma map_eq_In {A B} (f g : A -> B) l k : map f l = map g l -> In k l -> f k = g k.
-Proof.
-  induction l as [|a l IH]; intros H Hk; [contradiction|]. cbn [map] in H. inversion H.
-  destruct Hk as [->|Hk]; [assumption|apply IH; assumption].
-Qed.
 
 Lemma MFold_find_other sch o p l : forall a b j,
   Forall (CanonN sch p) l -> MFold (MStep sch o) l a b ->
@@ -1021,11 +843,6 @@ Proof.
     destruct t; reflexivity.
 Qed.
 
-Lemma filter_filter_len {A} (P Q : A -> bool) l : (length (filter P (filter Q l)) <= length (filter P l))%nat.
-Proof.
-  induction l as [|a l IH]; cbn [filter length]; [lia|].
-  destruct (Q a); cbn [filter]; destruct (P a); cbn [length]; lia.
-Qed.
 
 Lemma UniqL_nonkeys sch l : UniqL sch l -> UniqL sch (nonkeys sch l).
 Proof. intros H j. specialize (H j). pose proof (filter_filter_len (has_id sch j) (fun x => negb (is_key sch (d_sid x))) l). unfold nonkeys. lia. Qed.
@@ -1160,13 +977,8 @@ Section Contains.
   Qed.
 End Contains.
 
-(* --- target nodes whose instance path is not in the source are unchanged --- *)
-Lemma find_all_false {A} (P : A -> bool) l : (forall x, In x l -> P x = false) -> find P l = None.
-Proof.
-  induction l as [|a l IH]; intro H; cbn [find]; [reflexivity|].
-  rewrite (H a (or_introl eq_refl)). apply IH. intros x Hx. apply H. right. exact Hx.
-Qed.
 
+(* --- target nodes whose instance path is not in the source are unchanged --- *)
 Lemma lookup_path_nonkeys_none sch f q :
   UniqL sch f -> lookup_path sch f q = None -> lookup_path sch (nonkeys sch f) q = None.
 Proof.
@@ -1528,29 +1340,11 @@ Proof.
   apply (absorb_fold sch o None S T (merge sch o T S) IHs (merge_sound sch o T S HS) HT HUT (proj2 HS) (proj2 HUS) HI (proj1 HUS) y Hy).
 Qed.
 
+
+
 (* ------------------------------------------------------------------------------------------- *)
 (* H. merge into the empty tree                                                                  *)
 (* ------------------------------------------------------------------------------------------- *)
-Lemma insert_node_last sch P x : (forall b, In b P -> sib_ok sch b x) -> insert_node sch P x = P ++ [x].
-Proof.
-  induction P as [|b P IH]; intro H; cbn [insert_node app]; [reflexivity|].
-  assert (Hg : goes_before sch x b = false).
-  { specialize (H b (or_introl eq_refl)). unfold goes_before, sib_ok in *.
-    destruct H as [H|[H1 [H2 H3]]].
-    - apply orb_false_iff. split; [apply N.ltb_ge; lia|]. assert (E : (d_sid x =? d_sid b) = false) by (apply N.eqb_neq; lia).
-      rewrite E. reflexivity.
-    - apply orb_false_iff. split; [apply N.ltb_ge; lia|]. rewrite H1, N.eqb_refl. cbn [andb].
-      destruct (sorted_sid sch (d_sid x)) eqn:Es; [|reflexivity]. cbn [andb]. apply is_gt_false. apply H3. rewrite H1. exact Es. }
-  rewrite Hg, IH; [reflexivity|]. intros b' Hb'. apply H. right. exact Hb'.
-Qed.
-
-Lemma StronglySorted_app_mid {A} (R : A -> A -> Prop) P x l : StronglySorted R (P ++ x :: l) -> forall b, In b P -> R b x.
-Proof.
-  induction P as [|a P IH]; intros H b Hb; [contradiction|]. cbn [app] in H. inversion H as [|? ? Hs Hall]; subst.
-  destruct Hb as [->|Hb]; [|apply (IH Hs b Hb)].
-  rewrite Forall_forall in Hall. apply Hall. apply in_or_app. right. left. reflexivity.
-Qed.
-
 Lemma merge_empty_fold sch o l : forall P b,
   MFold (MStep sch o) l P b -> StronglySorted (sib_ok sch) (P ++ l) -> UniqL sch (P ++ l) ->
   Forall (fun x => dup_inst sch (d_sid x) = false) l -> b = P ++ l.
@@ -1585,3 +1379,159 @@ Qed.
    on the C side T2 compares the dump of the source before and after the merge) *)
 Lemma merge_source_pure sch o T S : snd (merge sch o T S, S) = S.
 Proof. reflexivity. Qed.
+
+(* --- full strength: also with instances of duplicate-instance lists at the top level of the source. This needs the
+   function (the relation MStep allows an equal instance to be updated instead of appended): equal instances that were
+   already copied have an exhausted lyd_dup_inst entry, so the next equal source instance is appended. --- *)
+Fixpoint deq_list (a b : forest) : bool :=
+  match a, b with
+  | [], [] => true
+  | x :: a', y :: b' => deq x y && deq_list a' b'
+  | _, _ => false
+  end.
+
+Lemma deq_unfold a b :
+  deq a b = (d_sid a =? d_sid b) && beq_bytes (d_val a) (d_val b) && deq_list (d_ch a) (d_ch b).
+Proof. destruct a, b. reflexivity. Qed.
+
+Lemma beq_bytes_sym a b : beq_bytes a b = beq_bytes b a.
+Proof.
+  destruct (beq_bytes a b) eqn:E1, (beq_bytes b a) eqn:E2; try reflexivity.
+  - apply beq_bytes_eq in E1. subst. rewrite beq_bytes_refl in E2. discriminate.
+  - apply beq_bytes_eq in E2. subst. rewrite beq_bytes_refl in E1. discriminate.
+Qed.
+
+Lemma deq_refl a : deq a a = true.
+Proof.
+  induction a as [s v d m ch IH] using dnode_ind'. rewrite deq_unfold. cbn [d_sid d_val d_ch].
+  rewrite N.eqb_refl, beq_bytes_refl. cbn [andb].
+  induction ch as [|x ch IHc]; [reflexivity|]. inversion IH; subst. cbn [deq_list]. rewrite H1. cbn [andb]. apply IHc. assumption.
+Qed.
+
+Lemma deq_sym a : forall b, deq a b = deq b a.
+Proof.
+  induction a as [s v d m ch IH] using dnode_ind'. intros [s2 v2 d2 m2 ch2]. rewrite !deq_unfold. cbn [d_sid d_val d_ch].
+  rewrite (N.eqb_sym s s2), (beq_bytes_sym v v2). f_equal.
+  revert ch2. induction ch as [|x ch IHc]; intros [|y ch2]; cbn [deq_list]; try reflexivity.
+  inversion IH; subst. rewrite (H1 y), (IHc H2 ch2). reflexivity.
+Qed.
+
+Lemma deq_trans a : forall b c, deq a b = true -> deq b c = true -> deq a c = true.
+Proof.
+  induction a as [s v d m ch IH] using dnode_ind'. intros [s2 v2 d2 m2 ch2] [s3 v3 d3 m3 ch3]. rewrite !deq_unfold.
+  cbn [d_sid d_val d_ch]. intros H1 H2.
+  apply andb_true_iff in H1. destruct H1 as [H1 L1]. apply andb_true_iff in H1. destruct H1 as [S1 V1].
+  apply andb_true_iff in H2. destruct H2 as [H2 L2]. apply andb_true_iff in H2. destruct H2 as [S2 V2].
+  apply N.eqb_eq in S1, S2. apply beq_bytes_eq in V1, V2. subst. rewrite N.eqb_refl, beq_bytes_refl. cbn [andb].
+  revert ch2 ch3 L1 L2. induction ch as [|x ch IHc]; intros [|y ch2] [|z ch3] L1 L2; cbn [deq_list] in *; try discriminate; try reflexivity.
+  apply andb_true_iff in L1. destruct L1 as [A1 B1]. apply andb_true_iff in L2. destruct L2 as [A2 B2].
+  inversion IH; subst. rewrite (H1 y z A1 A2). cbn [andb]. apply (IHc H2 ch2 ch3 B1 B2).
+Qed.
+
+Lemma match_eq_dup sch src x :
+  dup_inst sch (d_sid src) = true -> match_eq sch src x = (d_sid x =? d_sid src) && deq src x.
+Proof. intro Hd. unfold match_eq. rewrite (dup_inst_multi _ _ Hd), Hd. reflexivity. Qed.
+
+Lemma match_eq_refl sch x : match_eq sch x x = true.
+Proof.
+  destruct (dup_inst sch (d_sid x)) eqn:Hd; [|apply match_eq_refl_id, Hd].
+  rewrite (match_eq_dup sch x x Hd), N.eqb_refl, deq_refl. reflexivity.
+Qed.
+
+Lemma match_eq_sym sch a b : match_eq sch a b = true -> match_eq sch b a = true.
+Proof.
+  intro H. pose proof (match_eq_sid _ _ _ H) as Hs.
+  destruct (dup_inst sch (d_sid a)) eqn:Hd.
+  - rewrite (match_eq_dup sch a b Hd) in H. apply andb_true_iff in H. destruct H as [_ H].
+    rewrite (match_eq_dup sch b a); [|rewrite Hs; exact Hd]. rewrite Hs, N.eqb_refl, deq_sym, H. reflexivity.
+  - destruct (inst_id_some sch a Hd) as [j Hj]. rewrite (match_eq_has_id sch a j Hj) in H. apply has_id_inst in H.
+    rewrite (match_eq_has_id sch b j H). apply has_id_self, Hj.
+Qed.
+
+Lemma match_eq_trans sch a b c : match_eq sch a b = true -> match_eq sch b c = true -> match_eq sch a c = true.
+Proof.
+  intros H1 H2. pose proof (match_eq_sid _ _ _ H1) as S1. pose proof (match_eq_sid _ _ _ H2) as S2.
+  destruct (dup_inst sch (d_sid a)) eqn:Hd.
+  - rewrite (match_eq_dup sch a b Hd) in H1. rewrite (match_eq_dup sch b c) in H2; [|rewrite S1; exact Hd].
+    apply andb_true_iff in H1. destruct H1 as [_ H1]. apply andb_true_iff in H2. destruct H2 as [_ H2].
+    rewrite (match_eq_dup sch a c Hd), S2, S1, N.eqb_refl, (deq_trans a b c H1 H2). reflexivity.
+  - destruct (inst_id_some sch a Hd) as [j Hj]. rewrite (match_eq_has_id sch a j Hj) in *. apply has_id_inst in H1.
+    rewrite (match_eq_has_id sch b j H1) in H2. exact H2.
+Qed.
+
+(* state of the cache while the source is copied into the (initially empty) target P *)
+Definition EInv (sch : schema) (c : cache) (P : forest) : Prop :=
+  (forall r cnt used, In (r, cnt, used) c -> In r P) /\
+  (forall src, dup_inst sch (d_sid src) = true -> (exists t, In t P /\ match_eq sch src t = true) ->
+               exists cnt, cache_find sch c src = Some (cnt, cnt)).
+
+Lemma count_match_app sch x P Q : count_match sch x (P ++ Q) = (count_match sch x P + count_match sch x Q)%nat.
+Proof. unfold count_match. rewrite filter_app, app_length. reflexivity. Qed.
+
+Lemma count_match_zero sch x P : (forall t, In t P -> match_eq sch x t = false) -> count_match sch x P = O.
+Proof.
+  intro H. unfold count_match. induction P as [|a P IH]; [reflexivity|]. cbn [filter].
+  rewrite (H a (or_introl eq_refl)). apply IH. intros t Ht. apply H. right. exact Ht.
+Qed.
+
+Lemma merge_empty_step sch o x P c :
+  EInv sch c P -> (forall b, In b P -> sib_ok sch b x) ->
+  (dup_inst sch (d_sid x) = false -> forall t, In t P -> match_eq sch x t = false) ->
+  exists c' sg oth, merge_sib sch o x P c = (P ++ [x], c', sg, oth) /\ EInv sch c' (P ++ [x]).
+Proof.
+  intros [HE2 HE3] Hsorted Hnd. rewrite merge_sib_unfold. unfold choose.
+  rewrite (insert_node_last sch P x Hsorted).
+  destruct (match_idx sch x P 0 0) as [i0|] eqn:E0.
+  - (* an equal instance is already there: x is an instance of a duplicate-instance list and its entry is used up *)
+    destruct (match_idx_some _ _ _ _ _ _ E0) as [t0 [_ [Hn0 Hm0]]]. pose proof (nth_error_In _ _ Hn0) as Hin0.
+    assert (Hd : dup_inst sch (d_sid x) = true).
+    { destruct (dup_inst sch (d_sid x)) eqn:E; [reflexivity|]. rewrite (Hnd eq_refl t0 Hin0) in Hm0. discriminate. }
+    destruct (HE3 x Hd (ex_intro _ t0 (conj Hin0 Hm0))) as [cnt Hcf].
+    unfold dup_inst_next. rewrite Hcf, Nat.eqb_refl, Hd.
+    exists c, (if d_dflt x then [] else [SDel]), true. split; [reflexivity|]. split.
+    + intros r cn us Hr. apply in_or_app. left. apply (HE2 r cn us Hr).
+    + intros src Hds [t [Ht Hmt]]. apply HE3; [exact Hds|]. apply in_app_or in Ht. destruct Ht as [Ht|[<-|[]]].
+      * exists t. split; assumption.
+      * exists t0. split; [exact Hin0|]. apply (match_eq_trans sch src x t0 Hmt Hm0).
+  - (* no match: copied, and a new entry is made that is used up at once *)
+    pose proof (match_idx_none0 _ _ _ _ E0) as Hno.
+    assert (Hcf : cache_find sch c x = None).
+    { destruct (cache_find sch c x) as [[cnt used]|] eqn:E; [|reflexivity]. exfalso.
+      destruct (cache_find_In _ _ _ _ _ E) as [r [Hr Hmr]]. specialize (Hno r (HE2 _ _ _ Hr)).
+      rewrite (match_eq_sym sch r x Hmr) in Hno. discriminate. }
+    assert (Hcnt : count_match sch x (P ++ [x]) = 1%nat).
+    { rewrite count_match_app, (count_match_zero sch x P Hno). unfold count_match. cbn [filter]. rewrite match_eq_refl. reflexivity. }
+    unfold dup_inst_next at 1. rewrite Hcf. cbn [snd]. rewrite Hcnt.
+    exists ((x, 1%nat, 1%nat) :: c), (if d_dflt x then [] else [SDel]), true. split; [reflexivity|]. split.
+    + intros r cn us [Hr|Hr]; [inversion Hr; subst; apply in_or_app; right; left; reflexivity|].
+      apply in_or_app. left. apply (HE2 r cn us Hr).
+    + intros src Hds [t [Ht Hmt]]. cbn [cache_find].
+      destruct (match_eq sch x src) eqn:Exs; [exists 1%nat; reflexivity|].
+      apply HE3; [exact Hds|]. apply in_app_or in Ht. destruct Ht as [Ht|[<-|[]]]; [exists t; split; assumption|].
+      rewrite (match_eq_sym sch src x Hmt) in Exs. discriminate.
+Qed.
+
+Lemma merge_empty_list sch o l : forall P c,
+  EInv sch c P -> StronglySorted (sib_ok sch) (P ++ l) -> UniqL sch (P ++ l) -> merge_list sch o l P c = P ++ l.
+Proof.
+  induction l as [|x l IH]; intros P c HE HS HU; cbn [merge_list]; [rewrite app_nil_r; reflexivity|].
+  destruct (merge_empty_step sch o x P c HE) as [c' [sg [oth [E HE']]]].
+  - apply (StronglySorted_app_mid _ P x l HS).
+  - intros Hd t Ht. destruct (inst_id_some sch x Hd) as [j Hj]. rewrite (match_eq_has_id sch x j Hj).
+    destruct (has_id sch j t) eqn:Et; [|reflexivity]. exfalso.
+    specialize (HU j). rewrite filter_app in HU. cbn [filter] in HU. rewrite (has_id_self _ _ _ Hj) in HU.
+    rewrite app_length in HU. cbn [length] in HU.
+    assert (In t (filter (has_id sch j) P)) by (apply filter_In; split; assumption).
+    destruct (filter (has_id sch j) P); [contradiction|cbn [length] in HU; lia].
+  - rewrite E. rewrite (IH (P ++ [x]) c' HE'); rewrite <- ?app_assoc; cbn [app]; try assumption. reflexivity.
+Qed.
+
+(* merging into an empty target yields the source itself - every canonical source with unique identities *)
+Theorem merge_empty sch o S : Canon sch S -> UniqIds sch S -> merge sch o [] S = S.
+Proof.
+  intros HS HU. unfold merge.
+  apply (merge_empty_list sch o S [] []); cbn [app].
+  - split; [intros r cnt used []|]. intros src _ [t [[] _]].
+  - apply (canon_strongly_sorted sch None S HS).
+  - apply HU.
+Qed.
